@@ -124,6 +124,12 @@ def uncommit(
                 parents.extend(reversed(pending_merges))
                 tree.set_parent_ids(parents)
             if branch.supports_tags() and not keep_tags:
+                if master is not None:
+                    # Deleting a tag also deletes it in the master branch,
+                    # through a branch object of its own: release our lock on
+                    # the master first or that object cannot lock it.
+                    unlockable.remove(master)
+                    master.unlock()
                 remove_tags(branch, graph, old_tip, parents)
     finally:
         for item in reversed(unlockable):
